@@ -202,12 +202,12 @@ func (dts *DataTypeService) findMetadata(key []byte, dt dataType) (*metadata, er
 	if err == bitcask.ErrKeyNotFound {
 		exist = false
 	} else {
-		// key 存在, 进行解码
-		meta = decodeMetadata(metaBuf)
-		// 判断数据类型是否正确
-		if meta.dataType != dt {
+		// 判断数据类型是否正确: 先检查类型字节, 其他类型的值 (如 String 的用户数据) 不能按元数据解码
+		if len(metaBuf) == 0 || metaBuf[0] != dt {
 			return nil, ErrWrongTypeOperation
 		}
+		// key 存在, 进行解码
+		meta = decodeMetadata(metaBuf)
 		// 判断是否过期
 		if meta.expire != 0 && meta.expire <= time.Now().UnixNano() {
 			exist = false // 过期仍视为不存在
